@@ -380,7 +380,7 @@ func rulesC04(c *Ctx) {
 							continue
 						}
 						rec := false
-						if id, isId := a.E.(*ast.Ident); isId && a.Val && ifs.Init != nil && l.Defines(ifs.Init, l.ObjOf(id)) {
+						if id, isId := a.E.(*ast.Ident); isId && a.Val && l.ObjOf(id) != nil && l.ObjOf(id) == typeAssertOKVar(l, "internal/jsonrpc2", "Request") {
 							rec = true // the comma-ok of the type assertion in the if's init
 						}
 						if ce, isC := a.E.(*ast.CallExpr); isC && !a.Val && l.IsCallTo(ce, isCall) {
